@@ -358,3 +358,54 @@ _run_g = run
 def run(ctx, rep, tier):
     _run_g(ctx, rep, tier)
     _single_writer(ctx, rep, tier)
+
+
+# ---------------------------------------------------------------------------------------------------------------- C19.h
+def _resolution_details(ctx, rep, tier):
+    """C19.h: three details of the resolution that the phase structure (C19.a) and the fixpoint shape (C19.d) leave open:
+    (1) the implication loops contain no skip: an implied flag is switched on whether or not it was named on the command line;
+    (2) the exclusion helper recurses into every implied flag unconditionally (an earlier call may already have cleared it);
+    (3) `--flag x=<word>`: the accepted words are partitioned into exactly {yes, on} -> on and {no, off} -> off."""
+    model = ctx.model
+    fn = model.func(LCF)
+    rep.rule("C19.h", "implication loops have no skip; the exclusion helper recurses into every implied flag unconditionally; =yes/on/no/off map to on/on/off/off")
+    wh = next((st for st in strip_doc(fn.body) if isinstance(st, ast.While) and ".implies" in ast.unparse(st)), None)
+    if wh is None:
+        raise AnalysisError("C19.h: implication loop not found")
+    esc = [n for n in ast.walk(wh) if isinstance(n, (ast.Continue, ast.Return))]
+    brks = [n for n in ast.walk(wh) if isinstance(n, ast.Break)]
+    inner = [n for n in ast.walk(wh) if isinstance(n, ast.For) and ast.unparse(n.iter).endswith(".implies")]
+    shape = len(inner) == 1 and [type(s).__name__ for s in inner[0].body] == ["If", "Assign"] and len(brks) == 1
+    rep.check(not esc and shape, "C19.h", LCF, "implication loop: for each implied flag `if not on: changed = True; on = True` - nothing else, no skip",
+              "the implication loop skips some implied flags (e.g. those named on the command line): `-fyield-support -fno-indirect-start-ptr` yields yield support without the indirect start "
+              "pointer it implies")
+    aux = model.functions.get(LCF + ".aux")
+    if aux is None:
+        raise AnalysisError("C19.h: exclusion helper not found")
+    rec = [n for n in aux.body if isinstance(n, ast.For) and ast.unparse(n.iter).endswith(".implies")]
+    okr = len(rec) == 1 and isinstance(rec[0].body[-1], ast.Expr) and isinstance(rec[0].body[-1].value, ast.Call) and ast.unparse(rec[0].body[-1].value.func) == "aux" and \
+        not any(isinstance(n, (ast.If, ast.Continue, ast.Break)) for st in rec[0].body for n in ast.walk(st))
+    rep.check(okr, "C19.h", LCF + ".aux", "recursion into implied flags is unconditional", "the exclusion helper only recurses into implied flags that are (still) on: an earlier call may have cleared one, "
+              "and the conflict it is part of goes unreported - acceptance then depends on the order of the flags")
+    val = [n for n in ast.walk(fn) if isinstance(n, ast.If) and re.fullmatch(r"set_to not in \[.*\]", ast.unparse(n.test)) and any(isinstance(x, ast.Raise) for x in n.body)]
+    asg = [n for n in ast.walk(fn) if isinstance(n, ast.Assign) and ast.unparse(n.targets[0]) == "set_to" and "set_to" in ast.unparse(n.value)]
+    okw = False
+    why = "validation / mapping of --flag values not found"
+    if len(val) == 1 and len(asg) == 1:
+        accepted = set(ast.literal_eval(val[0].test.comparators[0]))
+        v = asg[0].value
+        if isinstance(v, ast.Compare) and len(v.ops) == 1 and isinstance(v.ops[0], ast.In) and ast.unparse(v.left) == "set_to":
+            truthy = set(ast.literal_eval(v.comparators[0]))
+            okw = accepted == {"yes", "on", "no", "off"} and truthy == {"yes", "on"} and asg[0].lineno > val[0].lineno
+            why = f"accepted {sorted(accepted)}, on-words {sorted(truthy)}"
+        else:
+            why = f"value mapping is `{ast.unparse(v)}`"
+    rep.check(okw, "C19.h", LCF, "--flag x=<word>: {yes,on} switch on, {no,off} switch off, anything else is refused", f"{why}: some accepted spelling resolves differently from -f / -fno-")
+
+
+_run_h19 = run
+
+
+def run(ctx, rep, tier):
+    _run_h19(ctx, rep, tier)
+    _resolution_details(ctx, rep, tier)
